@@ -2490,11 +2490,15 @@ FROM (
             cte = CTEBuilder()
             cte.cte("_sd_a", a_sql, materialized=True)
             cte.cte("_sd_b", b_sql, materialized=True)
+            # UNION ALL matches columns by position: project both sides by name in the
+            # first operand's column order (the operands may declare them in another order).
+            a_cols = ", ".join(f"a.{quote_name(c)}" for c in first_ds.components)
+            c_cols = ", ".join(f"c.{quote_name(c)}" for c in first_ds.components)
             return cte.select(
-                f"(SELECT a.* FROM _sd_a AS a "
+                f"(SELECT {a_cols} FROM _sd_a AS a "
                 f"ANTI JOIN _sd_b AS b ON {on_clause}) "
                 f"UNION ALL "
-                f"(SELECT c.* FROM _sd_b AS c "
+                f"(SELECT {c_cols} FROM _sd_b AS c "
                 f"ANTI JOIN _sd_a AS d ON {on_clause_rev})"
             )
 
